@@ -31,7 +31,7 @@ pub struct ConfigCase {
     pub gc: GraphCase,
     pub kind: Kind,
     pub enc_pick: u8,
-    /// 0 embedded, 1 fake_sat, 2 kissat (falls back to fake_sat when not installed)
+    /// 0 embedded, 1 fake_sat, 2 kissat (falls back to fake_sat when not installed), 3 embedded behind the model chooser
     pub backend: u8,
     pub script: Vec<Step>,
 }
@@ -273,7 +273,7 @@ impl Config {
             gen::pres(nmax),
             0usize..KINDS.len(),
             any::<u8>(),
-            prop_oneof![80 => Just(0u8), 12 => Just(1u8), 8 => Just(2u8)],
+            prop_oneof![55 => Just(0u8), 12 => Just(1u8), 8 => Just(2u8), 25 => Just(3u8)],
             vec((0u8..3, any::<u16>(), any::<bool>(), prop_oneof![3 => Just(false), 1 => Just(true)]), 3..=maxlen),
         )
             .prop_map(|(g, pres, k, enc_pick, backend, script)| ConfigCase {
@@ -297,6 +297,14 @@ impl Config {
         let fake = FakeSat::get();
         let (backend, bname, fk): (Backend, &str, Option<&FakeSat>) = match case.backend {
             0 => (embedded(), "embedded", None),
+            3 => {
+                // the embedded solver behind the model chooser: answers may not depend on which models come back
+                use std::hash::{Hash, Hasher};
+                let mut h = std::collections::hash_map::DefaultHasher::new();
+                serde_json::to_string(case).unwrap().hash(&mut h);
+                let v = h.finish();
+                (satwrap::choosy(v >> 8, (v % 3) as u8, 64), "embedded-chosen-models", None)
+            }
             2 => match kissat_backend() {
                 Some(k) => (k, "kissat", None),
                 None => {
